@@ -38,7 +38,7 @@ theorem C29_facts :
     Gen.SrvSession.findServersChecksEndpoints = true ∧ Gen.SrvSession.dataTypeAssertionChecked = true ∧
     Gen.SrvSession.publishingIntervalRevised = true ∧
     dispatcherInline = true ∧ responseWriteDeadline = false ∧ recoverers = [] ∧ refTypeDeleteLoop = false ∧
-    signedChunkLengthChecked = true := by decide
+    signedChunkLengthChecked = true ∧ receiveBufFullCapacity = true := by decide
 
 /-- On the regenerated `getSubRefs` lists the deletion loop of `suitableRefType` panics for exactly
     these reference types: References, HierarchicalReferences, HasChild (relevant only while
@@ -494,6 +494,16 @@ theorem C29_nopanic_sequences (st : St) (l : List (Tok × Req)) (hw : wf st = tr
         · exact ih st' hwf
 
 theorem C29_initial_wf : wf {} = true := by decide
+
+/-- Raw frames of any declared size, straight after the handshake or on an open channel, cost at most
+    their own connection: `Receive` still reads into a slice with the whole receive buffer behind it
+    (regenerated fact; an exact-size allocation would turn 8..11-byte frames into a panic in readChunk). -/
+theorem C29_raw_frame_safe (size : Nat) : rawFrameOutcome size = .noResponse := by
+  have h : receiveBufFullCapacity = true := by decide
+  unfold rawFrameOutcome
+  split
+  · rfl
+  · simp [h]
 
 /-! ### hang: one client that does not read -/
 
